@@ -17,7 +17,9 @@ RULE = ('per (formula, signal set): BFS over ALL schedules, a schedule being a s
         'on every transition: emitted time-stamps never decrease and the concatenated output, read as a step function, equals the dense '
         'reference (shifted by the horizon after pastify) at every grid time it covers; coverage (how far the output reaches) is not constrained; '
         'long layer: 70/71-sample signals, every schedule of at most two calls whose first call delivers (c_x, c_y) with c_v from a cut alphabet '
-        '(quick: 12 cuts around the 64th sample and the ends; thorough: every fourth c_v in 0..71 plus those)')
+        '(quick: 12 cuts around the 64th sample and the ends; thorough: every fourth c_v in 0..71 plus those); '
+        'presentations of the same schedules: variables without new samples left out of the call; and a caller that keeps one list and one set of [t, v] objects per '
+        'variable, refills them in place for every call and overwrites the list update() returned once it has read it')
 ASSUMPTIONS = ['signals: samples on the half-unit grid at fixed time sets, values in {-1,2}; formulas <= 2 operators (past, and pastified bounded future without until)',
                'reference = vf/dref.py on the complete signal (past formulas do not depend on later input)']
 
@@ -58,6 +60,8 @@ class ScheduleModel(object):
         self.ref = dict(zip(self.times, dref.evaluate(f, signals, self.times, selfcheck=True)))
         self.nontrivial = 0
         self.omit_empty = False
+        self.reuse_buffers = False   # True: the caller keeps one list and one set of [t, v] pair objects per variable, refills them in place for every
+        #                              call, and overwrites the list that update() returned to it once it has read it
         self.exact = False
         self.outputs = set()
         # data sets that start at t0 > 0: the unrepaired monitor is documented (open finding) to behave like the shifted-start
@@ -75,6 +79,8 @@ class ScheduleModel(object):
         s._vf_last = None
         s._vf_msg = None
         s._vf_compared = False
+        s._vf_buf = {v: [] for v in self.vs}
+        s._vf_pool = {v: [[0.0, 0.0] for _ in range(max(self.n) + 1)] for v in self.vs}
         return s
 
     def pos(self, hist):
@@ -92,9 +98,27 @@ class ScheduleModel(object):
             # (only once the variable has received samples in an earlier call: a first call that does not mention a variable at all is
             # not covered by the statement)
             batches = {v: b for i, (v, b) in enumerate(batches.items()) if b or p[i] == 0}
-        out = impl.outcome(impl.ct_update, obj, batches)
-        if out[0] == 'ok':
-            out = ('ok', copy.deepcopy(out[1]))
+        if self.reuse_buffers:
+            args = []
+            for v, b in batches.items():
+                pairs = obj._vf_pool[v][:len(b)]
+                for pair, smp in zip(pairs, b):
+                    pair[0], pair[1] = smp[0], smp[1]
+                obj._vf_buf[v][:] = pairs
+                args.append([v, obj._vf_buf[v]])
+            out = impl.outcome(obj.update, *args)
+            if out[0] == 'ok':
+                kept = copy.deepcopy(out[1])
+                if isinstance(out[1], list):       # the caller post-processes what it was given, in place
+                    for smp in out[1]:
+                        if isinstance(smp, list) and len(smp) == 2:
+                            smp[1] = 12345.0
+                    out[1].append([1e9, 12345.0])
+                out = ('ok', kept)
+        else:
+            out = impl.outcome(impl.ct_update, obj, batches)
+            if out[0] == 'ok':
+                out = ('ok', copy.deepcopy(out[1]))
         self._compared = False
         obj._vf_msg = self.judge(obj, out)
         obj._vf_compared = self._compared
@@ -369,6 +393,29 @@ def run_shard(shard, tier, res):
                 res.evaluations += st2.transitions
                 res.nontrivial += m2.nontrivial
                 res.flags['fixpoint' if st2.fixpoint else 'no_fixpoint'] += 1
+            if not shard.get('long') and (si % (4 if tier == 'quick' else 2) == 1):
+                # the same schedules presented by a caller that re-uses its buffers and overwrites the results it was handed
+                try:
+                    m3 = ScheduleModel(f, text, vs, sig, pastify)
+                except refsem.DomainError:
+                    m3 = None
+                if m3 is not None:
+                    m3.reuse_buffers, m3.exact = True, m.exact
+
+                    def on_violation3(hist, msg, sig=sig, m3=m3):
+                        case = {'formula': fj, 'spec': text, 'vars': vs, 'pastify': pastify, 'exact': m3.exact, 'reuse_buffers': True,
+                                'signals': {v: [list(p) for p in s] for v, s in sig.items()}, 'schedule': [list(st_) for st_ in hist]}
+                        res.violation(mod, case, msg + ' (the caller re-uses one list and one set of [t, v] objects per variable and overwrites the returned lists)')
+                        res.outcomes['re-used buffers'] += 1
+                    st3 = explore.bfs(m3, 64, 20000 if tier == 'quick' else 200000, 'first', on_violation3)
+                    res.states += st3.states
+                    res.transitions += st3.transitions
+                    res.evaluations += st3.transitions
+                    res.nontrivial += m3.nontrivial
+                    res.flags['reused_buffer_searches'] += 1
+                    if m3.known_hits:
+                        res.known['site:C05-nonzero-start-bounded'] += m3.known_hits
+                    res.flags['fixpoint' if st3.fixpoint else 'no_fixpoint'] += 1
             res.states += st.states
             res.transitions += st.transitions
             res.traces += st.executions
@@ -392,6 +439,7 @@ def check_case(case):
     m = ScheduleModel(f, case['spec'], case['vars'], sig, case.get('pastify', False))   # replay follows the recorded schedule
     m.exact = bool(case.get('exact'))
     m.omit_empty = bool(case.get('omit_empty'))
+    m.reuse_buffers = bool(case.get('reuse_buffers'))
     obj = m.fresh()
     hist = tuple(tuple(s) for s in case['schedule'])
     msgs = []
